@@ -69,6 +69,21 @@ impl InternalAPI {
     }
 }
 
+/// Runs a call into the tower that may block (waiting for `bitcoind` to be reachable again, or for a lock held by a
+/// thread that is) without stalling the async runtime the request is being served from: a worker thread that blocks
+/// inside a handler keeps everything it drives from running, so while it waits no other request would even be answered
+/// with "service unavailable".
+fn blocking<T>(f: impl FnOnce() -> T) -> T {
+    use tokio::runtime::{Handle, RuntimeFlavor};
+
+    match Handle::try_current() {
+        Ok(handle) if handle.runtime_flavor() == RuntimeFlavor::MultiThread => {
+            tokio::task::block_in_place(f)
+        }
+        _ => f(),
+    }
+}
+
 /// Public tower API. Accessible by users.
 #[tonic::async_trait]
 impl PublicTowerServices for Arc<InternalAPI> {
@@ -87,7 +102,7 @@ impl PublicTowerServices for Arc<InternalAPI> {
             )
         })?;
 
-        match self.watcher.register(user_id) {
+        match blocking(|| self.watcher.register(user_id)) {
             Ok(receipt) => Ok(Response::new(common_msgs::RegisterResponse {
                 user_id: req_data.user_id,
                 available_slots: receipt.available_slots(),
@@ -118,10 +133,10 @@ impl PublicTowerServices for Arc<InternalAPI> {
         );
         let locator = appointment.locator;
 
-        match self
-            .watcher
-            .add_appointment(appointment, req_data.signature)
-        {
+        match blocking(|| {
+            self.watcher
+                .add_appointment(appointment, req_data.signature)
+        }) {
             Ok((receipt, available_slots, subscription_expiry)) => {
                 Ok(Response::new(common_msgs::AddAppointmentResponse {
                     locator: locator.to_vec(),
@@ -158,7 +173,7 @@ impl PublicTowerServices for Arc<InternalAPI> {
         let req_data = request.into_inner();
         let locator = Locator::from_slice(&req_data.locator).unwrap();
 
-        match self.watcher.get_appointment(locator, &req_data.signature) {
+        match blocking(|| self.watcher.get_appointment(locator, &req_data.signature)) {
             Ok(info) => {
                 let (appointment_data, status) = match info {
                     AppointmentInfo::Appointment(appointment) => (
@@ -209,10 +224,9 @@ impl PublicTowerServices for Arc<InternalAPI> {
         request: Request<common_msgs::GetSubscriptionInfoRequest>,
     ) -> Result<Response<common_msgs::GetSubscriptionInfoResponse>, Status> {
         self.check_service_unavailable()?;
-        let (subscription_info, locators) = self
-            .watcher
-            .get_subscription_info(&request.into_inner().signature)
-            .map_err(|e| match e {
+        let signature = request.into_inner().signature;
+        let (subscription_info, locators) =
+            blocking(|| self.watcher.get_subscription_info(&signature)).map_err(|e| match e {
                 GetSubscriptionInfoFailure::AuthenticationFailure => Status::new(
                     Code::Unauthenticated,
                     "User not found. Have you registered?",
